@@ -139,6 +139,19 @@ def cli(ctx):
     p = os.path.join(d, 'a.p8')
     try:
         gfile.to_file(g, p)
+        once = open(p, 'rb').read()
+        # over an existing file (another cart, with a label and another version): the result is the new cart's file alone
+        other = cartio.make_game(cartio.memory((1, 200), {}), b'-- other\nz=9\n', cartio.label_bytes((4, 4), {}), 33)
+        p2 = os.path.join(d, 'over.p8')
+        gfile.to_file(other, p2)
+        gfile.to_file(g, p2)
+        gfile.to_file(g, p2)
+        ctx.evaluations += 1
+        if open(p2, 'rb').read() != once:
+            ctx.violation('overwrite-differs', 'writing a cart over an existing .p8 file (twice) leaves %d bytes, writing it to a fresh path %d bytes: the old file shows through' % (
+                len(open(p2, 'rb').read()), len(once)), {'kind': 'overwrite'})
+        else:
+            ctx.nontrivial += 1
         g2 = gfile.from_file(p)
         try:
             rc = tool.main(['--quiet', 'writep8', p])
